@@ -54,7 +54,9 @@ def m_blocks(rf):
 VIEW_FILTERS = ['category == "Food"', 'months >= 6 and cv < 0.3', 'total > 1000 and months <= 3', '"business" in tags',
                 'max(sum(by("month"))) > 500', 'months >= max_val(2, period("month") * 0.5)', 'true', 'avg(payments) > lim',
                 'subcategory == "Grocery" or subcategory == "Delivery"', 'not (total < 0)', 'count(payments) >= 3 and is_freq',
-                'stddev(payments) / avg(payments) < 0.3', 'merchant == "Netflix"', 'sum(payments) % 2 == 0']
+                'stddev(payments) / avg(payments) < 0.3', 'merchant == "Netflix"', 'sum(payments) % 2 == 0',
+                # blanks INSIDE a string literal are part of the text compared (a category spelled with two blanks, a tab)
+                'category == "Food  Court"', '"a  b" in tags or subcategory == "x\ty"', 'merchant ==   "Big   Box"']
 VIEW_VARS = [('lim', '100'), ('is_freq', 'months >= 6'), ('cvx', 'stddev(payments) / avg(payments)'), ('half', 'total / 2')]
 
 
@@ -241,6 +243,15 @@ def judge_merchants(rec, rf, rnd, nedits, ncorr):
         rec.violation('valid-merchants-file-rejected', f'{type(e).__name__}: {e}', case0)
         return
     rec.count('section_count_checks')
+    # ... in the other rule mode as well: the mode changes how a winner is picked, not what was read from the file nor its order
+    try:
+        base_ms = m_obs(text, 'most_specific')
+        if base_ms != base:
+            diff = [k for k in base if base[k] != base_ms[k]]
+            rec.violation('rules-read-depend-on-rule-mode', f'most_specific vs first_match loading of the same file differ in {diff}: '
+                          f'{[r[0] for r in base_ms["rules"]]} vs {[r[0] for r in base["rules"]]}', case0)
+    except Exception as e:
+        rec.violation('valid-merchants-file-rejected', f'most_specific: {type(e).__name__}: {e}', case0)
     if len(base['rules']) != len(rf.rules) or [r[0] for r in base['rules']] != [r.name for r in rf.rules]:
         rec.violation('sections-not-one-to-one', f'{len(rf.rules)} sections -> {len(base["rules"])} rules', case0)
     else:
